@@ -163,26 +163,28 @@ Qed.
 Definition anim_lossless_frame_total : Prop := forall q l m,
   anim_frame_config true q false = ELossless l m -> lossless_pre l.
 
-(** Decided by the regenerated source: either encodeFrameForAnimation clamps the quality (then
-    proved), or it does not (pinned tree) and quality 101 reaches the VP8L encoder: the statement
-    is refuted.  (Behaviourally: the match search runs about quality^2/128 iterations per pixel,
-    quality 2^24 does not terminate in practice - known finding.) *)
-Theorem anim_lossless_frame_total_or_refuted :
-  anim_lossless_frame_total \/ (F.anim_frame_quality_clamp = [] /\ ~ anim_lossless_frame_total).
+(** Holds since 09c6c50 (encodeFrameForAnimation clamps the quality to 0..100): if the clamp
+    disappears from the source, the bound on [anim_clamp_quality] below can no longer be proved
+    and this obligation breaks. *)
+Theorem anim_lossless_frame_total_holds : anim_lossless_frame_total.
 Proof.
-  first
-  [ right; split; [reflexivity|]; intros H;
-    assert (Hc : lossless_pre (mkLL 101 4 100 false)) by (apply (H 101 _ (0, 0, 0)); vm_compute; reflexivity);
-    unfold lossless_pre in Hc; cbn in Hc; lia
-  | left; intros q0 l m H; unfold anim_frame_config in H; cbv zeta in H;
-    assert (Hr : 0 <= anim_clamp_quality q0 <= 100)
-      by (unfold anim_clamp_quality; remember F.anim_frame_quality_clamp as r eqn:E; vm_compute in E; subst r; cbn;
-          destruct (q0 <? 0) eqn:?;
-          repeat match goal with |- context [if ?b then _ else _] => destruct b eqn:? end; lia);
-    revert H Hr; generalize (anim_clamp_quality q0); intros q H Hr;
-    rewrite anim_frame_opts_eq in H; cbn [doc_anim_frame_opts] in H; injection H as <- _;
-    unfold lossless_pre, lossless_config; cbn; lia ].
+  intros q0 l m H. unfold anim_frame_config in H. cbv zeta in H.
+  assert (Hr : 0 <= anim_clamp_quality q0 <= 100)
+    by (unfold anim_clamp_quality; remember F.anim_frame_quality_clamp as r eqn:E; vm_compute in E; subst r; cbn;
+        destruct (q0 <? 0) eqn:?;
+        repeat match goal with |- context [if ?b then _ else _] => destruct b eqn:? end; lia).
+  revert H Hr. generalize (anim_clamp_quality q0). intros q H Hr.
+  rewrite anim_frame_opts_eq in H. cbn [doc_anim_frame_opts] in H. injection H as <- _.
+  unfold lossless_pre, lossless_config. cbn. lia.
 Qed.
+
+(** Historic defect, about a pinned definition that no run selects: without the clamp the VP8L
+    quality is the raw option value (101 is out of the codec's range; the match search runs
+    about quality^2/128 iterations per position, 2^24 did not terminate in practice). *)
+Definition pinned_anim_lossless_config_unclamped (quality : Z) : llcfg :=
+  lossless_config (anim_frame_opts true (fl_of_int quality)) quality.
+Theorem pinned_anim_lossless_unclamped_refuted : exists q, ~ lossless_pre (pinned_anim_lossless_config_unclamped q).
+Proof. exists 101. unfold lossless_pre. vm_compute. intros [[_ H] _]. apply H. reflexivity. Qed.
 
 (** ... while inside 0..100 everything is in range on either tree. *)
 Theorem anim_lossless_frame_config_in_range : forall q l m, 0 <= q <= 100 ->
@@ -215,8 +217,7 @@ Lemma anim_source_matches_model_holds : anim_source_matches_model.
 Proof. unfold anim_source_matches_model. repeat split; reflexivity. Qed.
 
 (** Kmin is documented ("frames closer than Kmin to the previous keyframe are always encoded as
-    sub-frames") but, after being sanitized, is never read by the encoder: decided by the
-    regenerated read counts. *)
-Theorem anim_every_field_read_or_kmin_unused :
-  anim_unused_fields = [] \/ anim_unused_fields = [F.afld_Kmin].
-Proof. first [left; vm_compute; reflexivity | right; vm_compute; reflexivity]. Qed.
+    sub-frames") but, after being sanitized, is the one option field the encoder never reads
+    (regenerated read counts; breaks when that changes, in either direction). *)
+Theorem anim_kmin_is_the_only_unused_field : anim_unused_fields = [F.afld_Kmin].
+Proof. vm_compute. reflexivity. Qed.
